@@ -230,6 +230,7 @@ func VerifC06VersionsPath() {
 	}
 	symx.Cover("two-versions")
 
+	pruned1 := false
 	if symx.Bool("prune") {
 		symx.Assert(db.Prune(2) != nil, "a version other than the earliest was pruned")
 		symx.Assert(db.Prune(1) == nil, "Prune of the earliest finalized version failed")
@@ -240,6 +241,44 @@ func VerifC06VersionsPath() {
 		// everything the retained version needs is still there, including nodes created in the pruned version
 		c06CheckRoot(ctx, db, r2, c2, probe, "after pruning version 1")
 		symx.Cover("pruned")
+		pruned1 = true
+	}
+	// cfg v3=1: a third version on top of version 2 (it may re-insert what version 2 removed, remove what it
+	// added, or leave the root unchanged or empty), finalized; then pruning catches up (lag 1 or 2 versions)
+	if symx.Cfg("v3", 0) == 1 {
+		t3 := mkvs.NewWithRoot(nil, db, r2)
+		c3 := append([]c06KV{}, c2...)
+		key3 := symx.Bytes("op3Key", 1)
+		if symx.Bool("op3Remove") {
+			symx.Assert(t3.Remove(ctx, key3) == nil, "Remove failed")
+			c3 = c06Del(c3, key3)
+		} else {
+			val3 := symx.Bytes("op3Val", 1)
+			symx.Assert(t3.Insert(ctx, key3, val3) == nil, "Insert failed")
+			c3 = c06Set(c3, key3, val3)
+		}
+		_, h3, err := t3.Commit(ctx, ns, 3)
+		symx.Assert(err == nil, "Commit of version 3 failed")
+		t3.Close()
+		r3 := node.Root{Namespace: ns, Version: 3, Type: node.RootTypeState, Hash: h3}
+		symx.Assert(db.Finalize([]node.Root{r3}) == nil, "Finalize of version 3 failed")
+		if !pruned1 {
+			c06CheckRoot(ctx, db, r1, c1, probe, "after finalizing version 3 (version 1)")
+		}
+		c06CheckRoot(ctx, db, r2, c2, probe, "after finalizing version 3 (version 2)")
+		c06CheckRoot(ctx, db, r3, c3, probe, "after finalizing version 3")
+		if !pruned1 {
+			symx.Assert(db.Prune(1) == nil, "Prune of the earliest finalized version failed (lag 2)")
+			c06CheckRoot(ctx, db, r2, c2, probe, "after pruning version 1 (lag 2, version 2)")
+			c06CheckRoot(ctx, db, r3, c3, probe, "after pruning version 1 (lag 2, version 3)")
+		}
+		symx.Assert(db.Prune(2) == nil, "Prune of version 2 failed")
+		symx.Assert(db.GetEarliestVersion() == 3, "earliest version not advanced by pruning version 2")
+		if h2 != h3 {
+			symx.Assert(!db.HasRoot(r2), "pruned root of version 2 still present")
+		}
+		c06CheckRoot(ctx, db, r3, c3, probe, "after pruning versions 1 and 2")
+		symx.Cover("three-versions")
 	}
 	symx.Cover("end")
 }
